@@ -27,6 +27,35 @@ theorem holds_at_threshold (a : Attr) (op : Op) (e : Event) :
   rw [holds_iff]
   cases op <;> simp [Rat.lt_irrefl]
 
+/-- an origin-time statement whose threshold `v` is NOT a whole number of milliseconds is decided by comparing the integer
+    column with `v` itself: `>` and `>=` keep exactly the instants above `⌊v⌋` resp. from `⌈v⌉` on, `<` and `<=` those below
+    `⌈v⌉` resp. up to `⌊v⌋` (floor / ceiling, NOT truncation toward zero, for negative thresholds too), `==` none unless
+    `v` is a whole number. -/
+theorem holds_originTime_frac (op : Op) (v : Rat) (e : Event) :
+    (Stmt.holds ⟨.originTime, op, v⟩ e = true) ↔
+      match op with
+      | .gt => v.floor < e.originTime
+      | .lt => e.originTime < v.ceil
+      | .ge => v.ceil ≤ e.originTime
+      | .le => e.originTime ≤ v.floor
+      | .eq => ((e.originTime : Int) : Rat) = v := by
+  rw [holds_iff]
+  cases op <;> simp only [Event.get]
+  · exact Rat.floor_lt_iff.symm
+  · exact Rat.lt_ceil_iff.symm
+  · exact Rat.ceil_le_iff.symm
+  · exact Rat.le_floor_iff.symm
+
+/-- `origin_time == v` with a fractional `v` selects nothing -/
+theorem holds_originTime_eq_frac (v : Rat) (e : Event) (hv : (v.floor : Rat) ≠ v) :
+    Stmt.holds ⟨.originTime, .eq, v⟩ e = false := by
+  rw [Bool.eq_false_iff]
+  intro h
+  rw [holds_iff] at h
+  simp only [Event.get] at h
+  apply hv
+  rw [← h, Rat.floor_intCast]
+
 /-- C04 main statement: filtering by a list of statements is one pass over the catalog that keeps, in the
     original order and with multiplicity, exactly the rows for which every statement is true.
     Rows are copied whole (`List.filter`), so all fields are unchanged. -/
@@ -277,6 +306,13 @@ example : step ⟨[e1, e2], [], none⟩ (.filter (some [RawStmt.num ⟨.magnitud
             ⟨[e2], [RawStmt.num ⟨.magnitude, .gt, 45/10⟩], none⟩) := by decide +kernel
 
 example : filterSpatial ⟨1, [(-118, 35)]⟩ [e1, e2] = [e1] := by decide +kernel
+-- fractional origin-time thresholds: X.5 keeps X under `<`, X.4 drops X under `>=` and `==`, `> -0.5` keeps t = 0
+example : filterList [⟨.originTime, .lt, 1246406400000 + 1/2⟩] [e1, e2, e3] = [e1, e3] := by decide +kernel
+example : filterList [⟨.originTime, .ge, 1246406400000 + 2/5⟩] [e1, e2, e3] = [e2] := by decide +kernel
+example : filterList [⟨.originTime, .eq, 1246406400000 + 2/5⟩] [e1, e2, e3] = [] := by decide +kernel
+example : filterList [⟨.originTime, .gt, -1/2⟩] [⟨7, 0, 0, 0, 0, 0⟩, ⟨8, -1, 0, 0, 0, 0⟩] = [⟨7, 0, 0, 0, 0, 0⟩] := by
+  decide +kernel
+example : ((-1/2 : Rat).floor : Rat) ≠ -1/2 := by decide +kernel
 example : epochMs ⟨2009, 7, 1, 0, 0, 0, 0⟩ = 1246406400000 := by decide +kernel
 end Examples
 
